@@ -565,10 +565,10 @@ func c19(e *Env) {
 		return
 	}
 	if len(e.Args) > 0 && (e.Args[0] == "race-child" || e.Args[0] == "plain-child") {
-		n := e.N(3000, 50000)
+		n := e.N(3000, 150000)
 		label := "plain"
 		if e.Args[0] == "race-child" {
-			n, label = e.N(500, 5000), "race-build"
+			n, label = e.N(500, 15000), "race-build"
 		}
 		st := c19Workload(e, n, label)
 		r.Evals(int64(st.Histories))
